@@ -27,6 +27,10 @@ class KeyModel(Model):
                 t = base_type(fr.f.type(strip(s['c'][0])))
                 same = (t == self.alt)
                 return (1 if same else 0) if op == '==' else (0 if same else 1)
+        for v in (a, b):
+            if isinstance(v, Sym) and isinstance(v.tag, tuple) and v.tag[0] == 'SLOT' and op in ('==', '!='):
+                same = (v.tag[1] == self.alt)
+                return (1 if same else 0) if op == '==' else (0 if same else 1)
         ia, ib = interval.as_iv(a), interval.as_iv(b)
         if ia is not None and ib is not None:
             r = interval.compare(op, ia, ib)
@@ -52,6 +56,12 @@ class KeyModel(Model):
 
 
 class KeyInterp(Interp):
+    def ev_unary(self, fr, n, depth):
+        # the address of a tuple alternative stands for "which alternative": it is compared with mLast, directly or inside a helper
+        if n.get('op') == '&' and n.get('c'):
+            return Sym(('SLOT', base_type(fr.f.type(strip(n['c'][0])))))
+        return Interp.ev_unary(self, fr, n, depth)
+
     def cast_other(self, v, t):
         if isinstance(v, Iv):
             return interval.cast(v, t)
